@@ -24,8 +24,15 @@ DBL_DIG = 15 digits" — the seeded changes C12-e2 / C18-e2). What precision is 
   `fifteen_digits_counterexample` / `sixteen_digits_counterexample` (the `.15g` / `.16g` texts of
   DBL_MAX and 0.1+0.2 round to a DIFFERENT double: `1.79769313486232e+308`, `0.3`) — replayed on the
   real code by the unit stream whenever a translator prints with fixed precision.
-  The grid model is tied to `roundsTo` only through these witnesses (the general link — scaling
-  `roundsTo`'s comparisons to one grid — is not proved).
+* THE GENERAL LINK (added): `roundsTo_of_grid` — the two strict comparisons of `roundsTo` ARE the grid
+  inequalities `(2m−1)·H < A < (2m+1)·H` in the scaling `S = 2^(-min k (e-1))·5^(-min k 0)`;
+  `seventeen_digits_roundsTo` — hence for every finite non-zero double that is not a binade boundary
+  and every decimal with ≥ 17 significant digits within half a unit of its last place of it,
+  `roundsTo` holds. NOT linked: the binade-boundary doubles (`m = 2^52`, `e > -1074`), where
+  `roundsTo` makes its lower comparison in another scaling (`e-2`); for them only the grid theorem
+  `seventeen_digits_round_trip_at_binade_boundary` and the witness 2.2250738585072014e-308 stand.
+  Also not proved: that CPython's `repr` (or `%.17g`) produces a decimal within half a unit of its
+  last place — that is `ReprFaithful`, checked per sampled float.
 -/
 import FaxVerif.C18.Spec
 namespace FaxVerif.C18
@@ -108,6 +115,88 @@ theorem sixteen_digits_counterexample :
     roundsTo (litDec "1234567.123456789") 4698053237140020536 = false ∧
     roundsTo (litDec "2.225073858507201e-308") 4503599627370496 = false := by
   decide +kernel
+
+/-! ## the grid model and the real oracle: the general link -/
+
+/-- one comparison of `roundsTo`, unfolded: both sides scaled by the common factor `2^(-k2)·5^(-k5)` -/
+theorem cmpScaled_lt (a : Nat) (a2 a5 : Int) (b : Nat) (b2 b5 : Int) :
+    cmpScaled a a2 a5 b b2 b5 = .lt ↔
+      a * 2 ^ (a2 - min a2 b2).toNat * 5 ^ (a5 - min a5 b5).toNat <
+      b * 2 ^ (b2 - min a2 b2).toNat * 5 ^ (b5 - min a5 b5).toNat := by
+  simp only [cmpScaled]
+  exact Nat.compare_eq_lt
+
+theorem cmpScaled_gt (a : Nat) (a2 a5 : Int) (b : Nat) (b2 b5 : Int) :
+    cmpScaled a a2 a5 b b2 b5 = .gt ↔
+      b * 2 ^ (b2 - min a2 b2).toNat * 5 ^ (b5 - min a5 b5).toNat <
+      a * 2 ^ (a2 - min a2 b2).toNat * 5 ^ (a5 - min a5 b5).toNat := by
+  simp only [cmpScaled]
+  exact Nat.compare_eq_gt
+
+/-- the decimal unit, half the binary unit, and the decimal itself, all scaled by
+`S = 2^(-min q.exp (e-1)) · 5^(-min q.exp 0)` -/
+def gridT (q : Dec) (e : Int) : Nat := 2 ^ (q.exp - min q.exp (e - 1)).toNat * 5 ^ (q.exp - min q.exp 0).toNat
+def gridH (q : Dec) (e : Int) : Nat := 2 ^ ((e - 1) - min q.exp (e - 1)).toNat * 5 ^ ((0 : Int) - min q.exp 0).toNat
+
+theorem roundsTo_of_grid (q : Dec) (bits m : Nat) (e : Int)
+    (hdec : decodeBits bits = some (q.neg, m, e)) (hm0 : m ≠ 0)
+    (hnb : ¬ (m = 2 ^ 52 ∧ e > -1074))
+    (hup : q.mant * gridT q e < (2 * m + 1) * gridH q e)
+    (hlo : (2 * m - 1) * gridH q e < q.mant * gridT q e) :
+    roundsTo q bits = true := by
+  have h1 : cmpScaled q.mant q.exp q.exp (2 * m + 1) (e - 1) 0 = .lt := by
+    rw [cmpScaled_lt]
+    simpa [gridT, gridH, Nat.mul_assoc] using hup
+  have h2 : cmpScaled q.mant q.exp q.exp (2 * m - 1) (e - 1) 0 = .gt := by
+    rw [cmpScaled_gt]
+    simpa [gridT, gridH, Nat.mul_assoc] using hlo
+  have hb : (m == 2 ^ 52 && decide (e > -1074)) = false := by
+    cases hx : (m == 2 ^ 52 && decide (e > -1074)) with
+    | false => rfl
+    | true =>
+      simp only [Bool.and_eq_true, beq_iff_eq, decide_eq_true_eq] at hx
+      exact absurd hx hnb
+  have hm0' : (m == 0) = false := by simp [hm0]
+  simp only [roundsTo, hdec, h1, h2, hb, hm0', beq_self_eq_true, Bool.true_or, Bool.false_eq_true, if_false,
+    Bool.and_self]
+
+theorem gridH_pos (q : Dec) (e : Int) : 0 < gridH q e := by
+  unfold gridH
+  exact Nat.mul_pos (Nat.pow_pos (by decide)) (Nat.pow_pos (by decide))
+
+/-- **The grid theorem on the real oracle.** `bits` a finite non-zero double `m·2^e` that is not a
+power of two with a smaller-spaced lower neighbour, `q` a decimal `D·10^k` with at least 17
+significant digits (`D ≥ 10^16`) of the same sign, within half a unit of its last place of the
+double — the distance being measured with both numbers multiplied by the common positive factor
+`S = 2^(-min k (e-1))·5^(-min k 0)` so that they are natural numbers (`q ↦ D·gridT`, the double ↦
+`2m·gridH`, the decimal unit ↦ `gridT`). Then `roundsTo q bits`: the oracle the harness applies to
+the implementation's literals accepts `q` as a literal of that double. -/
+theorem seventeen_digits_roundsTo (q : Dec) (bits m : Nat) (e : Int)
+    (hdec : decodeBits bits = some (q.neg, m, e)) (hm0 : m ≠ 0) (hm : m < 2 ^ 53)
+    (hnb : ¬ (m = 2 ^ 52 ∧ e > -1074))
+    (hD : 10000000000000000 ≤ q.mant)
+    (hup : 2 * (q.mant * gridT q e - 2 * m * gridH q e) ≤ gridT q e)
+    (hdn : 2 * (2 * m * gridH q e - q.mant * gridT q e) ≤ gridT q e) :
+    roundsTo q bits = true := by
+  have hH := gridH_pos q e
+  have hX : 2 * m * gridH q e < 9007199254740992 * (2 * gridH q e) := by
+    have : 2 * m * gridH q e = m * (2 * gridH q e) := by
+      rw [Nat.mul_comm 2 m, Nat.mul_assoc]
+    rw [this]
+    exact Nat.mul_lt_mul_of_pos_right (by simpa using hm) (by omega)
+  obtain ⟨g1, g2⟩ := seventeen_digits_round_trip (2 * m * gridH q e) (2 * gridH q e) (gridT q e)
+    (q.mant * gridT q e) q.mant hX rfl hD hup hdn
+  have hP : 2 * m * gridH q e = 2 * (m * gridH q e) := Nat.mul_assoc 2 m _
+  have hPH : gridH q e ≤ m * gridH q e := Nat.le_mul_of_pos_left _ (Nat.pos_of_ne_zero hm0)
+  rw [hP] at g1 g2
+  apply roundsTo_of_grid q bits m e hdec hm0 hnb
+  · rw [Nat.add_mul, Nat.one_mul, hP]; omega
+  · rw [Nat.sub_mul, Nat.one_mul, hP]; omega
+
+/-- the hypotheses are satisfiable: 0.1 = 7205759403792794·2^-56 and its 17-digit decimal -/
+example : roundsTo ⟨false, 10000000000000001, -17⟩ 4591870180066957722 = true :=
+  seventeen_digits_roundsTo ⟨false, 10000000000000001, -17⟩ 4591870180066957722 7205759403792794 (-56)
+    (by decide +kernel) (by decide) (by decide) (by decide) (by decide) (by decide +kernel) (by decide +kernel)
 
 /-! ## non-vacuity of the grid theorem's hypotheses -/
 
